@@ -27,6 +27,21 @@ claim(
     "DESIGN.md section 5 / C13",
 )
 
+claim(
+    "C01",
+    "model_checking",
+    "A-choice-tree",
+    "exhaustive choice-tree exploration of the real samplers under a scripted random stream; exact transition matrices on lattice targets",
+    "The random stream of the real MetropolisChain/GibbsChain/PcaChain/HamiltonianChain/EnsembleSampler objects is replaced by a scripted generator "
+    "(finite symmetric normal alphabet, symbolic uniform that forks with exact probabilities). One take_step is explored from every state of "
+    "lattice targets (1-D 6-8 states, 2-D 3x3/4x3; unimodal, bimodal, ties, holes, cliff; T in {1,2.5}; free/box/non-negative; axis and oblique PCA directions; "
+    "fresh and non-initial chains), giving the exact per-attempt kernel (detailed balance, proposal symmetry, threshold = MH probability) and the exact law of the "
+    "recorded step (all rejections up to R, loop invariance, closed-form tail) whose stationary distribution is compared with pi^(1/T). HMC/ensemble: every "
+    "(configuration, draw) pair: threshold = exp(H0-H1) / z^(n-1) pi(Y)/pi(X), reverse move run by the code itself, stretch-factor law, partner uniformity.",
+    "finite draw alphabets and lattice targets; adaptation (diminishing) not decided; numpy linear algebra for the stationary solve",
+    "DESIGN.md section 5 / C01",
+)
+
 ALL = [f"C{i:02d}" for i in range(1, 21)]
 PENDING_REASON = "check under construction in this session (design in DESIGN.md section 5); not yet claimed"
 
